@@ -522,6 +522,24 @@ func c07PGPs(r *Rng, thorough bool) []c07Inst {
 		}
 		out = append(out, c07Inst{tag: tag, wf: wf, data: c07Armor(label, b.stream, st)})
 	}
+	// armor header lines whose length straddles the sizes a line reader might use (armor.Decode reads
+	// lines through a 100-byte bufio buffer, in pieces), each FOLLOWED by another header, alone, and last
+	{
+		b := wellFormedKey(NewRng(r.U64()), pa[0], nil, false, 1, func(int) byte { return 3 })
+		lens := []int{99, 100, 101, 199, 200, 201, 300, 4095, 4096, 4097}
+		if !thorough {
+			lens = []int{99, 100, 101, 200, 4096}
+		}
+		for _, L := range lens {
+			long := "Comment: " + strings.Repeat("x", L-len("Comment: "))
+			for v, hs := range [][]string{{long, "Version: after a long line"}, {"Version: before", long, "Hash: SHA256"}, {long}, {"Version: last is long", long}} {
+				for _, crlf := range []bool{false, true} {
+					st := c07TextStyle{headers: hs, crc: v%2 == 0, blankSep: true, crlf: crlf}
+					out = append(out, c07Inst{tag: fmt.Sprintf("wf-pgp-public-hdrlen%d-%d", L, v), wf: "PGPPublicKey", data: c07Armor("PGP PUBLIC KEY BLOCK", b.stream, st)})
+				}
+			}
+		}
+	}
 	for k := 0; k < 4; k++ {
 		s := randSig(r, false)
 		lit := cat([]byte{'b', 5}, []byte("a.txt"), u32(1700000000), []byte("hello, world\n"))
